@@ -31,4 +31,4 @@ def run(ctx):
         "type-correctness of gogen's output is NOT proved by any theorem; it is searched",
         "go/types + gc (Go 1.23) define 'valid Go'",
     ]
-    compa_flow.run_search(ctx, "GopModel.Props.C06", "c06", 700, 6000, RULE)
+    compa_flow.run_search(ctx, "GopModel.Props.C06", "c06", 1500, 6000, RULE)
